@@ -124,12 +124,24 @@ class Impl:
             for _, p in r["ptrs"]:
                 if re.fullmatch(r"[A-Za-z_]\w*", p):
                     syms.setdefault(p, r["kind"])
-        out = ["#include <stddef.h>\n#include <stdlib.h>\n#include <string.h>\nconst char *verif_last_called; int verif_calls; const void *verif_last_a0, *verif_last_a1;\n"
-               "char verif_log[8192]; int verif_stub_ret;\n"
-               "static void verif_note(const char *s) { verif_last_called = s; verif_calls++; if (strlen(verif_log) + strlen(s) + 2 < sizeof verif_log) { if (verif_log[0]) strcat(verif_log, \",\"); strcat(verif_log, s); } }\n"]
+        out = ["#include <stddef.h>\n#include <stdio.h>\n#include <stdlib.h>\n#include <string.h>\n"
+               "const char *verif_last_called; int verif_calls; char verif_last_msg[512], verif_last_outarg[512];\n"
+               "char verif_log[8192]; int verif_stub_ret; int verif_threads_mode;\n"
+               "__thread const char *verif_tl_last; __thread char verif_tl_arg[64];\n"
+               "static void verif_note(const char *s, const char *arg) {\n"
+               "  verif_tl_last = s; snprintf(verif_tl_arg, sizeof verif_tl_arg, \"%s\", arg ? arg : \"\");\n"
+               "  if (verif_threads_mode) return;\n"
+               "  verif_last_called = s; verif_calls++;\n"
+               "  if (strlen(verif_log) + strlen(s) + 2 < sizeof verif_log) { if (verif_log[0]) strcat(verif_log, \",\"); strcat(verif_log, s); } }\n"]
         for s, kind in sorted(syms.items()):
-            rec = " verif_last_a0 = logMessage; verif_last_a1 = arg;" if kind == "output" else ""
-            out.append("int %s(%s) { verif_note(\"%s\");%s return verif_stub_ret; }\n" % (s, SIG[kind], s, rec))
+            if kind == "datasource":
+                # a data source writes its own identity into the result buffer and reports its length
+                out.append("int %s(%s) { verif_note(\"%s\", arg); if (resultBufSize) snprintf(resultBuf, resultBufSize, \"%%s\", \"%s\"); "
+                           "return (int)strlen(\"%s\") < (int)resultBufSize ? (int)strlen(\"%s\") : (resultBufSize ? (int)resultBufSize - 1 : 0); }\n" % (s, SIG[kind], s, s, s, s))
+            else:
+                rec = (" if (!verif_threads_mode) { snprintf(verif_last_msg, sizeof verif_last_msg, \"%s\", logMessage); snprintf(verif_last_outarg, sizeof verif_last_outarg, \"%s\", arg); }"
+                       if kind == "output" else "")
+                out.append("int %s(%s) { verif_note(\"%s\", arg);%s return verif_stub_ret; }\n" % (s, SIG[kind], s, rec))
         for s in sorted(extra):
             if s not in syms:
                 out.append("void %s(void) { abort(); }\n" % s)
@@ -162,8 +174,14 @@ class Impl:
         # the one caller of the filter registry that walks several names: filtering.c, from the snapshot
         fo = os.path.join(self.dir, "filtering.o")
         sh(["gcc"] + self.flags + ["-c", os.path.join(run.tree, "src", "filtering.c"), "-o", fo])
+        # ... and the rest of the logging path, so that every registered name is used THROUGH its real caller
+        callers = [fo]
+        for rel in ("src/message.c", "src/util/string.c", "src/action/log-syscall-exec.c", "src/action/log-message-dispatch.c"):
+            oo = os.path.join(self.dir, rel.replace("/", "__")[:-2] + ".o")
+            sh(["gcc"] + self.flags + ["-c", os.path.join(run.tree, rel), "-o", oo])
+            callers.append(oo)
         und, dfn = set(), set()
-        for o in objs + [g, dr, fo]:
+        for o in objs + [g, dr] + callers:
             for line in sh(["nm", o]).stdout.split("\n"):
                 f = line.split()
                 if len(f) == 2 and f[0] == "U":
@@ -175,13 +193,13 @@ class Impl:
         open(st, "w").write(self.stubs_source(extra))
         so = os.path.join(self.dir, "stubs.o")
         sh(["gcc"] + self.flags + ["-c", st, "-o", so])
-        self.common = [g, so, dr, fo]
+        self.common = [g, so, dr] + callers
 
     def arrays(self, d):
         """gcc -E of the three registry files under d/config.h -> {key: (names, ptrs)} or error text"""
         res = {}
         for k in KEYS:
-            kind = KIND_OF[k]
+            kind = KIND_OF.get(k, "")
             src = os.path.join(self.run.tree, "src", "%sregistry.c" % kind)
             p = subprocess.run(["gcc", "-E", "-P", "-I" + d] + [f for f in self.flags if f.startswith(("-I", "-D", "-std"))] + [src],
                                stdout=subprocess.PIPE, stderr=subprocess.PIPE, text=True)
@@ -189,7 +207,7 @@ class Impl:
                 return "gcc -E %sregistry.c: %s" % (kind, p.stderr[-800:])
             t = p.stdout
             mn = re.search(r"snoopy_%sregistry_names\s*\[\s*\]\s*=\s*\{(.*?)\}\s*;" % kind, t, re.S)
-            mp = re.search(r"snoopy_%sregistry_ptrs\s*\[\s*\]\s*\)\s*\([^)]*\)\s*=\s*\{(.*?)\}\s*;" % kind, t, re.S)
+            mp = re.search(r"snoopy_%sregistry_ptrs\s*\[\s*\]\s*(?:\)\s*\([^)]*\))?\s*=\s*\{(.*?)\}\s*;" % kind, t, re.S)
             if not mn or not mp:
                 return "gcc -E %sregistry.c: arrays not found in the preprocessed text" % kind
             names = []
@@ -207,7 +225,7 @@ class Impl:
         if err:
             return None, err
         exe = os.path.join(d, "impl_registry")
-        p = subprocess.run(["gcc"] + self.flags + objs + self.common + ["-o", exe], stdout=subprocess.PIPE, stderr=subprocess.STDOUT, text=True)
+        p = subprocess.run(["gcc"] + self.flags + objs + self.common + ["-o", exe, "-lpthread"], stdout=subprocess.PIPE, stderr=subprocess.STDOUT, text=True)
         if p.returncode != 0:
             return None, "link: " + p.stdout[-1500:]
         return exe, None
@@ -245,7 +263,7 @@ def probes(js):
     return allnames + near[::step] + ["nosuch", " ", "snoopy_datasource_uid"]
 
 
-def config_cases(js, defined, prb):
+def config_cases(js, defined, prb, threads=False):
     """model-format case lines for one configuration"""
     g = glist(defined)
     out = []
@@ -277,8 +295,23 @@ def config_cases(js, defined, prb):
     for i in range(len(fn)):
         chains.append([fn[(i + j) % len(fn)] for j in range(min(3, len(fn)))])
         chains.append([fn[i], fn[i]] + fn[:2])
+    if len(fn) >= 3:
+        chains.append([fn[0], "x" * 70, fn[1], "y" * 300, fn[2]])          # long unknown names (with an argument) are skipped like any other
     for ch in chains:
         out.append("chain\tflt\t%s\t%s" % (",".join(ch) if ch else "[]", g))
+    # the whole logging path through snoopy_action_log_syscall_exec: every registered name of every registry in its real role
+    dn = [n for _, n in js["registries"]["ds"]["names"] if n]
+    if fn and dn and outn:
+        for i in range(max(len(fn), len(dn), len(outn))):
+            out.append("exec\t%s\t%s\t%s\t%s" % (",".join([fn[i % len(fn)], fn[(i + 1) % len(fn)]]), ",".join([dn[i % len(dn)], dn[(i + 7) % len(dn)]]),
+                                                  hexs(outn[i % len(outn)].encode()), g))
+        out.append("exec\t%s\t%s\t%s\t%s" % (",".join(["nosuch", fn[0]]), ",".join([dn[0], "nosuch", dn[1]]), hexs(b"nosuch"), g))
+        out.append("exec\t[]\t%s\t%s\t%s" % (dn[-1], hexs(outn[-1].encode()), g))
+    if threads and dn:
+        av = py_select([r for r in js["registries"]["ds"]["names"] if r[1]], defined)
+        pick = av[:2] + av[-2:] if len(av) >= 4 else av
+        if len(pick) >= 2:
+            out.append("threads\tds\t%s\t%s" % (",".join("%s=%s" % (n, impl_of("datasource", n)) for n in pick), g))
     for k in KEYS:
         nrows = len(js["registries"][k]["names"])
         out.append("count\t%s\t%s" % (k, g))
@@ -373,13 +406,16 @@ def spec_lines(lines, answers):
     idx, out = [], []
     for i, (l, a) in enumerate(zip(lines, answers)):
         f = l.split("\t")
-        if f[0] == "chain" and a.startswith("ok\t"):
+        if f[0] == "exec" and a.startswith("ok\t"):
+            idx.append(i)
+            out.append("execspec\t%s\t%s\t%s\t%s\t%s" % (f[1], f[2], f[3], f[4], a.split("\t")[1]))
+        elif f[0] == "chain" and a.startswith("ok\t"):
             idx.append(i)
             out.append("chainspec\t%s\t%s\t%s\t%s" % (f[1], f[2], f[3], a.split("\t")[1]))
         elif f[0] in ("byname", "dispatch", "dispatchs") and a.startswith("ok\t"):
             o = a.split("\t")[1]
-            if o.startswith("fault"):
-                o = "fault"
+            if o.startswith("fault") or (f[0] != "byname" and o.startswith("called:") and a.split("\t")[2:3] == ["0"]):
+                o = "fault"     # the output ran, but not with the message / the configured argument it was to receive
             idx.append(i)
             out.append("spec\t%s\t%s\t%s\t%s" % (f[1], f[2], f[3], o))
         elif f[0] == "byid" and a.startswith("ok\tcalled:"):
@@ -402,8 +438,18 @@ def classify_case(js, line, model, ans):
     """signature + text for an implementation answer rejected by spec_C13_ok / a fault"""
     f = line.split("\t")
     k = f[1]
-    kind = KIND_OF[k]
+    kind = KIND_OF.get(k, "")
     a = ans.split("\t")
+    if f[0] == "exec":
+        outn = bytes.fromhex(f[3]).decode() if f[3] != "-" else ""
+        if not ans.startswith("ok"):
+            return "fault:" + a[0].split(":")[0], "snoopy_action_log_syscall_exec (filter chain [%s], format of [%s], output '%s') ended in %s" % (f[1][:200], f[2][:200], outn, ans)
+        return "spec:exec-path", ("snoopy_action_log_syscall_exec with filter chain [%s], message format of data sources [%s] and output '%s' ran %s; "
+                                  "the enabled elements' own implementations are %s" % (f[1][:200], f[2][:200], outn, a[1], model.split("\t")[1] if "\t" in model else model))
+    if f[0] == "threads":
+        if not ans.startswith("ok"):
+            return "fault:" + a[0].split(":")[0], "concurrent format expansion [%s] ended in %s" % (f[2], ans)
+        return "spec:thread-crosstalk", "threads expanding their own %%{name} concurrently: %s" % (a[2] if len(a) > 2 else ans)
     if f[0] == "chain":
         if not ans.startswith("ok"):
             return "fault:" + a[0].split(":")[0], "walking the filter chain [%s] ended in %s" % (f[2], ans)
@@ -414,6 +460,8 @@ def classify_case(js, line, model, ans):
         if not ans.startswith("ok"):
             return "fault:" + a[0].split(":")[0], "snoopy_outputregistry_dispatch with the configured output '%s' ended in %s" % (name, ans)
         o = a[1]
+        if o.startswith("called:") and a[2:3] == ["0"]:
+            return "spec:dispatch-args", "snoopy_outputregistry_dispatch runs %s for the configured output '%s', but not with the message and the configured output argument (as text) it was given" % (o[7:], name)
         if o.startswith("called:"):
             sym = o[7:]
             if sym != impl_of(kind, name):
@@ -633,7 +681,7 @@ def check(run):
     sentinel = js["sentinel"] if js["sentinel"] is not None else ""
 
     corp = corpus_jobs(universe)
-    jobs = corp + [(label, defined, config_cases(js, defined, prb)) for label, defined in cfgs]
+    jobs = corp + [(label, defined, config_cases(js, defined, prb, threads=label in ("all-on", "as-configured"))) for label, defined in cfgs]
     cfgs = [(l, d) for l, d, _ in corp] + cfgs
 
     def one(job):
@@ -681,9 +729,9 @@ def check(run):
             f = l.split("\t")
             if a == "nobuild":
                 continue
-            if (f[0] in ("byname", "byid", "dispatch", "dispatchs") and "\tcalled:" in a) or (f[0] == "chain" and a.startswith("ok\tsnoopy")):
+            if (f[0] in ("byname", "byid", "dispatch", "dispatchs") and "\tcalled:" in a) or (f[0] in ("chain", "exec") and a.startswith("ok\tsnoopy")):
                 n_called.add((label, f[1], f[0], f[2]))
-            faulted = not a.startswith("ok") or "\tfault" in a
+            faulted = not a.startswith("ok") or "\tfault" in a or (f[0] == "threads" and a != mm)
             if faulted or i in spec_bad.get(ci, []):
                 sig, text = classify_case(js, l, mm, a)
                 if sig not in seen_sig:
@@ -768,7 +816,7 @@ def check(run):
         "evaluations": n_eval, "distinct_nontrivial": len(n_called),
         "rule": "per build configuration (a config.h with exactly the chosen guard macros defined): gcc -E arrays of the three registry files, and the registries "
                 "+ genericregistry.c linked against identity stubs, asked getCount, callById/getName for every id in [-2, rows+2) and INT_MIN/INT_MAX, "
-                "callByName/doesNameExist/getIdFromName for every name of every table plus near misses, snoopy_outputregistry_dispatch with CFG->output set to each of these names (fresh pointer, and one fixed address with changing content), every table name asked of the three registries in a row, filter chains (all, reversed, rotations, repeats, unknown elements) walked by the snapshot's filtering.c with PASS-answering stubs; configurations = all-on, all-off, as-configured, "
+                "callByName/doesNameExist/getIdFromName for every name of every table plus near misses, snoopy_outputregistry_dispatch with CFG->output set to each of these names (fresh pointer, and one fixed address with changing content), every table name asked of the three registries in a row, filter chains (all, reversed, rotations, repeats, unknown elements) walked by the snapshot's filtering.c with PASS-answering stubs, and snoopy_action_log_syscall_exec (log-syscall-exec.c + filtering.c + message.c + log-message-dispatch.c of the snapshot) with every registered filter / data source / output name in its real role; threads expanding their own %{name} concurrently (all-on, as-configured); configurations = all-on, all-off, as-configured, "
                 "every single switch off, single switch on, seeded random subsets (densities 0.15/0.5/0.85/0.97); plus snoopy_genericregistry_* on generated arrays "
                 "with duplicates/prefixes/early sentinels; non-trivial = distinct (configuration, registry, lookup) whose answer actually called an implementation",
         "samples": [per_cfg[i][2][j][:200] for i, j in ((0, 4), (1, 60), (min(5, len(per_cfg) - 1), 80), (len(per_cfg) - 1, 100)) if j < len(per_cfg[i][2])] + gen_lines[:1],
@@ -854,7 +902,7 @@ def replay(run, path):
                 verdict = "DOES-NOT-BUILD: " + (err or "")[-400:].replace("\n", " ")
             elif not a.startswith("ok") or "\tfault" in a:
                 verdict = "FAULT"
-            elif so.get(i, "ok") != "ok":
+            elif so.get(i, "ok") != "ok" or (f[0] == "threads" and a != m):
                 verdict = "SPEC-VIOLATION"
             elif a != m:
                 verdict = "DIFFERS"
